@@ -303,6 +303,10 @@ func c06build(s *sim.Sim, p *sim.Params) *c06sys {
 
 func c06Run(s *sim.Sim, p *sim.Params) {
 	s.SetLimits(1_000_000, 0)
+	if s.Choose(sim.SWork, 10) == 0 {
+		c06ApiKeys(s, p)
+		return
+	}
 	y := c06build(s, p)
 	defer os.Unsetenv(envJWTSecret)
 	defer os.Unsetenv(envAPIKeys)
